@@ -20,6 +20,25 @@ def main():
     seed = int(os.environ.get("VERIF_SEED", "0") or 0)
     assert_repo()
     ctx = Ctx(a.prop, a.tier, seed, a.replay)
+    # hard stop (exit 2 = the check itself did not finish; never a verdict): a quick check that has not finished
+    # after several times its time budget is wedged (a lost worker, a deadlocked scheduler thread)
+    import threading
+
+    hard = float(os.environ.get("VERIF_HARD_STOP_S", "0") or 0) or (ctx.budget_s * 4 + 120)
+
+    def _stop():
+        print(f"[{a.prop}] TIMEOUT: the check did not finish within {hard:.0f}s (budget {ctx.budget_s:.0f}s); exit 2",
+              file=sys.stderr, flush=True)
+        try:
+            import multiprocessing
+            for ch in multiprocessing.active_children():
+                ch.terminate()
+        finally:
+            os._exit(2)
+
+    watchdog = threading.Timer(hard, _stop)
+    watchdog.daemon = True
+    watchdog.start()
     try:
         mod = importlib.import_module("props." + a.prop.lower())
         mod.run(ctx)
